@@ -137,16 +137,9 @@ Definition out_eqb (a b : out) : bool :=
 
 (* ---------- Model step on one delivered datagram ---------- *)
 (* the tree that exists contains the bounds check of K15a *)
-Definition model_fixed : bool := false.
+Definition model_fixed : bool := true.
 
 Record mstate := { m_secret : bytes; m_coa : bool; m_dm : bool; m_stale : bytes }.
-
-Definition obs_of (o : outcome) : out :=
-  match o with
-  | Drop => OObs [] []
-  | Panic => OPanic
-  | Handle c called req resp => OObs (if called then [(c, req)] else []) [resp]
-  end.
 
 Definition step (s : mstate) (o : op) : mstate * out * list N :=
   let p := coa_prog model_fixed (m_secret s) (m_coa s) (m_dm s) (fun _ _ => o_hr o) (m_stale s) (o_dg o) in
@@ -164,7 +157,7 @@ Definition accept_op (ss : sstate) (o : op) (r : out) : sstate + N := accept (Ho
      rd    = Some (L, d): the driver found the datagram complete with Length L and computed
              d = crypto/md5(dg[0:4] ++ 0^16 ++ dg[20:L] ++ secret)
      resps = observed responses r, each with crypto/md5(r[0:4] ++ dg[4:20] ++ r[20:] ++ secret) *)
-Definition st (dg : bytes) (ok : bool) (cause : N) (msg : bytes) (authentic : bool)
+Definition st_full (dg : bytes) (ok : bool) (cause : N) (msg : bytes) (authentic : bool)
            (rd : option (N * bytes)) (resps : list (bytes * bytes)) (calls : list (N * request))
            (panicked use_md5 : bool) (sec : bytes) : op * out :=
   let t1 := match rd with
@@ -176,12 +169,22 @@ Definition st (dg : bytes) (ok : bool) (cause : N) (msg : bytes) (authentic : bo
       o_tbl := t1 ++ t2; o_md5 := use_md5 |},
    if panicked then OPanic else OObs calls (map fst resps)).
 
-(* case: secret, CoA handler installed, Disconnect handler installed, trace *)
-Definition case := (bytes * bool * bool * list (bytes -> op * out))%type.
+(* the datagram of a step: literal, or the case's base datagram with its middle replaced
+   (first p bytes of base ++ m ++ last s bytes of base) *)
+Definition lit (dg : bytes) (base : bytes) : bytes := dg.
+Definition splice (p : N) (m : bytes) (s : N) (base : bytes) : bytes :=
+  firstn (N.to_nat p) base ++ m ++ skipn (length base - N.to_nat s)%nat base.
+Definition st (dgf : bytes -> bytes) (ok : bool) (cause : N) (msg : bytes) (authentic : bool)
+           (rd : option (N * bytes)) (resps : list (bytes * bytes)) (calls : list (N * request))
+           (panicked use_md5 : bool) (base sec : bytes) : op * out :=
+  st_full (dgf base) ok cause msg authentic rd resps calls panicked use_md5 sec.
+
+(* case: secret, CoA handler installed, Disconnect handler installed, base datagram, trace *)
+Definition case := (bytes * bool * bool * bytes * list (bytes -> bytes -> op * out))%type.
 Definition mk (c : case) : mstate * sstate * list (op * out) :=
-  let '(sec, coa, dm, tr) := c in
+  let '(sec, coa, dm, base, tr) := c in
   ({| m_secret := sec; m_coa := coa; m_dm := dm; m_stale := [] |},
-   {| s_secret := sec; s_coa_set := coa; s_dm_set := dm |}, map (fun f => f sec) tr).
+   {| s_secret := sec; s_coa_set := coa; s_dm_set := dm |}, map (fun f => f base sec) tr).
 Definition run_cases (cs : list case) : list (list N) :=
   check_all step accept_op out_eqb 1%N (map mk cs).
 
@@ -189,69 +192,3 @@ Definition mkreq (session user : bytes) (nasip framed : option bytes) (calling a
            (st it : N) (filter : bytes) (attrs : list attr) : request :=
   {| r_session := session; r_user := user; r_nasip := nasip; r_framed := framed; r_calling := calling;
      r_acct := acct; r_stimeout := st; r_itimeout := it; r_filter := filter; r_attrs := attrs |}.
-
-(* ---------- case files: one hex string per shard ----------
-   coqc spends ~50 us per numeral when it parses list literals, so a shard (10^5..10^6 bytes of
-   packets) is shipped as ONE string literal of hex digits and decoded here, under vm_compute.
-   Wire format (integers big-endian; B = u16 length + raw bytes; D = 16 raw bytes):
-     shard   = u16 ncases, case*
-     case    = B secret, u8 coa, u8 dm, u16 nsteps, step*
-     step    = B dg, u8 ok, u32 cause, B msg, u8 authentic, u8 hasrd, [u16 L, D], u8 nresps, (B resp, D)*,
-               u8 ncalls, (u8 kind, request)*, u8 panicked, u8 use_md5
-     request = B session, B user, u8 has, [B nasip], u8 has, [B framed], B calling, B acct, u32 st, u32 it,
-               B filter, u16 nattrs, (u8 type, B value)*
-   A malformed shard decodes to None and is reported as a mismatch on case 1. *)
-From Coq Require Import Strings.String Strings.Ascii.
-
-Definition hexval (a : ascii) : N :=
-  let n := N_of_ascii a in if n <? 58 then n - 48 else n - 87.   (* 0-9, a-f *)
-Fixpoint hex_decode (s : string) : bytes :=
-  match s with
-  | String a (String b r) => (16 * hexval a + hexval b) :: hex_decode r
-  | _ => []
-  end.
-
-Definition P (A : Type) := bytes -> option (A * bytes).
-Definition pbind {A B} (p : P A) (f : A -> P B) : P B :=
-  fun s => match p s with Some (a, r) => f a r | None => None end.
-Definition pret {A} (a : A) : P A := fun s => Some (a, s).
-Definition p_u8 : P N := fun s => match s with x :: r => Some (x, r) | [] => None end.
-Definition p_bool : P bool := pbind p_u8 (fun x => pret (negb (x =? 0))).
-Definition p_raw (n : nat) : P bytes :=
-  fun s => if Nat.leb n (length s) then Some (firstn n s, skipn n s) else None.
-Definition p_u16 : P N := pbind (p_raw 2%nat) (fun b => pret (be_val b)).
-Definition p_u32 : P N := pbind (p_raw 4%nat) (fun b => pret (be_val b)).
-Definition p_B : P bytes := pbind p_u16 (fun n => p_raw (N.to_nat n)).
-Fixpoint p_rep {A} (p : P A) (n : nat) : P (list A) :=
-  match n with
-  | O => pret []
-  | S k => pbind p (fun a => pbind (p_rep p k) (fun l => pret (a :: l)))
-  end.
-Definition p_opt {A} (p : P A) : P (option A) :=
-  pbind p_bool (fun h => if h then pbind p (fun a => pret (Some a)) else pret None).
-
-Definition p_attr : P attr := pbind p_u8 (fun t => pbind p_B (fun v => pret (t, v))).
-Definition p_request : P request :=
-  pbind p_B (fun session => pbind p_B (fun user => pbind (p_opt p_B) (fun nasip =>
-  pbind (p_opt p_B) (fun framed => pbind p_B (fun calling => pbind p_B (fun acct =>
-  pbind p_u32 (fun st => pbind p_u32 (fun it => pbind p_B (fun filter =>
-  pbind p_u16 (fun na => pbind (p_rep p_attr (N.to_nat na)) (fun attrs =>
-  pret (mkreq session user nasip framed calling acct st it filter attrs)))))))))))).
-Definition p_step : P (bytes -> op * out) :=
-  pbind p_B (fun dg => pbind p_bool (fun ok => pbind p_u32 (fun cause => pbind p_B (fun msg =>
-  pbind p_bool (fun authentic =>
-  pbind (p_opt (pbind p_u16 (fun L => pbind (p_raw 16%nat) (fun d => pret (L, d))))) (fun rd =>
-  pbind p_u8 (fun nr => pbind (p_rep (pbind p_B (fun r => pbind (p_raw 16%nat) (fun d => pret (r, d)))) (N.to_nat nr)) (fun resps =>
-  pbind p_u8 (fun nc => pbind (p_rep (pbind p_u8 (fun k => pbind p_request (fun rq => pret (k, rq)))) (N.to_nat nc)) (fun calls =>
-  pbind p_bool (fun panicked => pbind p_bool (fun use_md5 =>
-  pret (st dg ok cause msg authentic rd resps calls panicked use_md5))))))))))))).
-Definition p_case : P case :=
-  pbind p_B (fun sec => pbind p_bool (fun coa => pbind p_bool (fun dm =>
-  pbind p_u16 (fun ns => pbind (p_rep p_step (N.to_nat ns)) (fun tr => pret (sec, coa, dm, tr)))))).
-Definition p_shard : P (list case) := pbind p_u16 (fun n => p_rep p_case (N.to_nat n)).
-
-Definition run_shard (hex : string) : list (list N) :=
-  match p_shard (hex_decode hex) with
-  | Some (cs, []) => run_cases cs
-  | _ => [[1; 1; 0; 0; 0; 0]]
-  end.
